@@ -23,6 +23,23 @@ CLAIMED = {
         "note": "expat is the independent reader; the Lean reader covers character data and references only, not a full XML parser.",
         "technique": "Lean 4 proof (induction over strings) + translator-generated tables + differential correspondence",
     },
+    "C08": {
+        "text": "Lean theorem parse_refines_spec: for EVERY parameter forest (any shape/depth, sibling containers "
+                "distinct), every positional/keyword vector and both settings of extraArgumentErrors, the frame-stack "
+                "parser fed the flattened (name, optional, ancestry) list returns exactly what the recursive rule "
+                "returns (required = sum over sequences / min over visible choice branches, allowed = leaf count, the "
+                "(name, in_choice, value) sequence handed to the marshaller, the error kind and numbers). Corollaries: "
+                "never rejected when checking is off; rejected iff choice conflict / leftover keyword / leftover "
+                "positional. The model (frames, binding) is tied to suds/argparser.py by a correspondence against the "
+                "real parse_args (all trees <= 3 leaves x all vectors, sampled to 6 leaves) and the Spec is run as "
+                "oracle; real clients are checked for byte-identical requests across every positional/keyword split, "
+                "dict / factory object with unwrap=False, exact TypeError text, nothing sent on rejection.",
+        "design_ref": "DESIGN.md section 6 C08, appendix A.1",
+        "note": "ancestry identity (`is`) modelled by unique ids; the sticky conflict flag models the immediate TypeError; "
+                "object/dict equivalence with unwrap=False rests on the marshaller (checked on real clients, not proved).",
+        "technique": "Lean 4 proof (mutual structural induction over the parameter tree; refinement of a stack machine "
+                     "to a recursive spec) + differential correspondence against parse_args",
+    },
 }
 
 NOT_YET = "check not built yet in this round (design in DESIGN.md section 6); not claimed"
